@@ -74,6 +74,8 @@ type retrieveResult struct {
 	// again evaluates the same path once more the way the case reached the library: the same
 	// parsed function (Parse) or another Retrieve of the same text
 	again func(doc interface{}) ([]interface{}, error)
+	// lateBinding is non-empty when functions registered after Parse were called
+	lateBinding string
 }
 
 // apiShape says how a case reaches the library. It is a pure function of the path text (so a
@@ -129,6 +131,16 @@ func evalLibrary(c *Case, doc interface{}, accessor bool) retrieveResult {
 		}
 		rec.Calls, rec.Errs = nil, 0
 	}
+	h := fnv.New32a()
+	h.Write([]byte(c.Path))
+	hv := h.Sum32() >> 11
+	if hv%6 == 0 {
+		// a Parse that is rejected half-way (inside a filter operand, after nodes were built ...) right
+		// before: it must leave nothing behind for the case's own path
+		poison := poisonPaths[int(hv/6)%len(poisonPaths)]
+		noteParseVia(poison, true, accessor, false)
+		_, _ = jsonpath.Parse(poison, BuildConfig(nil, true, accessor))
+	}
 	noteParseVia(c.Path, c.Funcs && !api.bare, accessor && !api.bare, api.retrieve)
 	reenterDoc := gen.MustDecode(tinyDoc, false)
 	if api.retrieve {
@@ -171,11 +183,25 @@ func evalLibrary(c *Case, doc interface{}, accessor bool) retrieveResult {
 	if err != nil {
 		return retrieveResult{parseErr: err, rec: rec}
 	}
+	lateCalls := 0
+	if !api.bare && c.Funcs && hv%4 == 1 {
+		// the functions a path uses are those registered when it was parsed: registering other
+		// functions under the same names on the same Config object afterwards changes nothing
+		for _, name := range gen.FilterNames {
+			cfg.SetFilterFunction(name, func(v interface{}) (interface{}, error) { lateCalls++; return "LATE", nil })
+		}
+		for _, name := range gen.AggNames {
+			cfg.SetAggregateFunction(name, func(vs []interface{}) (interface{}, error) { lateCalls++; return "LATE", nil })
+		}
+	}
 	// the filter function "fre" re-enters the library: it calls this same parsed function on a
 	// small fixed document while the outer call is in progress (calls made inside are not logged)
 	rec.Reenter = func() { _, _ = f(reenterDoc) }
 	got, err := f(doc)
 	rec.Reenter = nil
+	if lateCalls > 0 {
+		return retrieveResult{got: got, err: err, rec: rec, again: f, lateBinding: fmt.Sprintf("%d calls went to functions that were registered on the Config only after Parse had returned", lateCalls)}
+	}
 	return retrieveResult{got: got, err: err, rec: rec, again: f}
 }
 
@@ -270,6 +296,9 @@ func checkC01(c *Case, st *Stats) string {
 	st.Class("api:" + pickAPI(c.Path, false).String())
 	if c.Twin != "" {
 		st.Class("preceded-by-twin-path")
+	}
+	if lib.lateBinding != "" {
+		return lib.lateBinding
 	}
 	if lib.parseErr != nil {
 		return fmt.Sprintf("generated path was rejected by Parse: %v", lib.parseErr)
